@@ -3,6 +3,7 @@ package activitypub
 import (
 	"bytes"
 	"encoding/gob"
+	"fmt"
 )
 
 // C04 — decoders are total: no input makes them panic, hang or blow the stack; and whatever they
@@ -24,6 +25,7 @@ func vpC04FollowUp(cell string, v any) {
 			_, _ = vpMarshalItem(x)
 			_, _ = GobEncode(x)
 			_ = DerefItem(x)
+			_ = fmt.Sprintf("%s|%v", x, x)
 		case *NaturalLanguageValues:
 			_, _ = x.MarshalJSON()
 			_, _ = x.GobEncode()
